@@ -911,6 +911,15 @@ def _get_cpp_type_reader_of_field(
         field_size = (
             ir_util.constant_value(field_ir.location.size) * parent_addressable_unit
         )
+    elif ir_util.is_constant_type(field_ir.location.size.type):
+        # The size is not a constant expression, but the bounds pass has proven
+        # that it has only one possible value (for example, a reference to a
+        # constant virtual field); the front end treats such a field as
+        # fixed-size, so the view must be, too.
+        field_size = (
+            int(field_ir.location.size.type.integer.modular_value)
+            * parent_addressable_unit
+        )
     byte_order_attr = ir_util.get_attribute(field_ir.attribute, "byte_order")
     if byte_order_attr:
         byte_order = byte_order_attr.string_constant.text
